@@ -295,47 +295,61 @@ def newOwnerThread (s : State) (query newOwner : Nat) (ownerId : SyncOwner) : Op
     | some (some t) => some t
     | _ => none                                    -- .expect("new owner should be blocked on `query`")
 
+/-- `debug_assert!(new_owner_thread == current_thread || dg.depends_on(new_owner_thread, current_thread))` -/
+def transferPre (s : State) (nt cur : Nat) : Option Bool :=
+  if nt = cur then some true else dependsOn s nt cur
+
+/-- The `match dg.transferred.entry(query)` block of `transfer_lock`.
+    `some none` = the early `return false` (same `(thread, owner)` as before);
+    `some (some (s', thread_changed))` otherwise. -/
+def transferEntry (s : State) (query cur newOwner nt : Nat) : Option (Option (State × Bool)) :=
+  match s.transferred query with
+  | none =>                                        -- Entry::Vacant
+    some (some ({ s with transferred := upd s.transferred query (some (nt, newOwner)) },
+                decide (cur ≠ nt)))
+  | some (oldThread, oldOwner) =>                  -- Entry::Occupied
+    if oldThread = nt ∧ oldOwner = newOwner then some none
+    else
+      match tdepsRemove s oldOwner query with
+      | none => none
+      | some s1 =>
+        let s2 := { s1 with transferred := upd s1.transferred query (some (nt, newOwner)) }
+        match repointLoop s2 query oldThread oldOwner newOwner (s.bound + 1) newOwner with
+        | none => none
+        | some s3 => some (some (s3, true))
+
+/-- `let all_dependents = dg.transferred_dependents.entry(new_owner).or_default(); … push(query)` -/
+def registerDependent (s : State) (query newOwner : Nat) : Option State :=
+  let l := tdepsL s newOwner
+  if l.contains newOwner then none                 -- debug_assert!(!all_dependents.contains(&new_owner))
+  else if l.contains query then none               -- SmallSet::push: debug_assert!(!self.0.contains(&value))
+  else some { s with tdeps := upd s.tdeps newOwner (some (l ++ [query])) }
+
+/-- The `if thread_changed { … }` block of `transfer_lock` without its `block_on`. -/
+def afterTransfer (s : State) (query nt : Nat) : Option State :=
+  match unblockTransferTarget s query nt with
+  | none => none
+  | some s1 => updateTransferredEdges nt (s1.bound + 1) s1 query
+
 -- src/runtime/dependency_graph.rs: fn transfer_lock, everything before the final `block_on`
 def transferLockCore (s : State) (query cur newOwner : Nat) (ownerId : SyncOwner) :
     Option (State × TransferKind × Nat) :=
   match newOwnerThread s query newOwner ownerId with
   | none => none
   | some nt =>
-    let pre : Option Bool := if nt = cur then some true else dependsOn s nt cur
-    match pre with                                 -- debug_assert!(new_owner_thread == current_thread || depends_on(..))
+    match transferPre s nt cur with
     | some true =>
-      let entryResult : Option (Option (State × Bool)) :=
-        match s.transferred query with
-        | none =>
-          some (some ({ s with transferred := upd s.transferred query (some (nt, newOwner)) },
-                      decide (cur ≠ nt)))
-        | some (oldThread, oldOwner) =>
-          if oldThread = nt ∧ oldOwner = newOwner then some none
-          else
-            match tdepsRemove s oldOwner query with
-            | none => none
-            | some s1 =>
-              let s2 := { s1 with transferred := upd s1.transferred query (some (nt, newOwner)) }
-              match repointLoop s2 query oldThread oldOwner newOwner (s.bound + 1) newOwner with
-              | none => none
-              | some s3 => some (some (s3, true))
-      match entryResult with
+      match transferEntry s query cur newOwner nt with
       | none => none
       | some none => some (s, .noop, nt)
       | some (some (s4, changed)) =>
-        -- `transferred_dependents.entry(new_owner).or_default()`
-        let l := tdepsL s4 newOwner
-        if l.contains newOwner then none           -- debug_assert!(!all_dependents.contains(&new_owner))
-        else if l.contains query then none         -- SmallSet::push debug_assert
-        else
-          let s5 := { s4 with tdeps := upd s4.tdeps newOwner (some (l ++ [query])) }
+        match registerDependent s4 query newOwner with
+        | none => none
+        | some s5 =>
           if changed then
-            match unblockTransferTarget s5 query nt with
+            match afterTransfer s5 query nt with
             | none => none
-            | some s6 =>
-              match updateTransferredEdges nt (s.bound + 1) s6 query with
-              | none => none
-              | some s7 => some (s7, .changed, nt)
+            | some s7 => some (s7, .changed, nt)
           else some (s5, .same, nt)
     | _ => none
 
@@ -489,21 +503,32 @@ inductive TransferAnswer
   | done (kind : TransferKind) (blocked : Bool)
   deriving DecidableEq, Repr
 
--- src/function/sync.rs: fn transfer (with fn mark_as_transfer_target inlined)
+-- src/function/sync.rs: fn mark_as_transfer_target   (`none` = Rust `None`: no entry)
+def markAsTransferTarget (s : State) (key : Nat) : Option (State × SyncOwner) :=
+  match s.sync key with
+  | none => none
+  | some st =>
+    some ({ s with sync := upd s.sync key (some { st with anyoneWaiting := true, isTransferTarget := true }) },
+          st.owner)
+
+/-- `*id = SyncOwner::Transferred; *claimed_twice = false;` in `transfer`. -/
+def setTransferred (s : State) (k : Nat) : Option State :=
+  match s.sync k with
+  | none => none                                   -- .expect("key should only be claimed/released once")
+  | some st => some { s with sync := upd s.sync k (some { st with owner := .transferred, claimedTwice := false }) }
+
+-- src/function/sync.rs: fn transfer
 def transfer (s : State) (t k newOwner : Nat) : Option (State × TransferAnswer) :=
-  match s.sync newOwner with
+  match markAsTransferTarget s newOwner with
   | none =>
     match releaseEntry s k .panicked with
     | none => none
     | some s1 => some (s1, .noTarget)
-  | some no =>
-    -- mark_as_transfer_target
-    let s1 := { s with sync := upd s.sync newOwner (some { no with anyoneWaiting := true, isTransferTarget := true }) }
-    match s1.sync k with
-    | none => none                                 -- .expect("key should only be claimed/released once")
-    | some st =>
-      let s2 := { s1 with sync := upd s1.sync k (some { st with owner := .transferred, claimedTwice := false }) }
-      match transferLock s2 k t newOwner no.owner with
+  | some (s1, ownerId) =>
+    match setTransferred s1 k with
+    | none => none
+    | some s2 =>
+      match transferLock s2 k t newOwner ownerId with
       | none => none
       | some (s3, kind, blocked) => some (s3, .done kind blocked)
 
@@ -623,6 +648,11 @@ inductive GOp
   | transferLock (query cur newOwner : Nat) (owner : SyncOwner)
   deriving DecidableEq, Repr
 
+/-- Ghost: record the thread id inside a `SyncOwner`. -/
+def touchOwner (s : State) : SyncOwner → State
+  | .thread t => touch s t
+  | .transferred => s
+
 def gstep (s : State) : GOp → Option State
   | .addEdge f k t =>
     let s := touch (touch (touch s f) k) t
@@ -636,11 +666,7 @@ def gstep (s : State) : GOp → Option State
   | .unblockTransferred k r => unblockTransferredOwnedBy (touch s k) k r
   | .undoTransfer k => undoTransferLock (touch s k) k
   | .transferLock q c n o =>
-    let s := touch (touch (touch s q) c) n
-    let s := match o with
-      | .thread t => touch s t
-      | .transferred => s
-    (transferLockCore s q c n o).map (·.1)
+    (transferLockCore (touchOwner (touch (touch (touch s q) c) n) o) q c n o).map (·.1)
 
 def grun : State → List GOp → Option State
   | s, [] => some s
@@ -651,6 +677,94 @@ def grun : State → List GOp → Option State
 
 /-- States reachable from `init` by some finite op sequence. -/
 def Reachable (s : State) : Prop := ∃ ops, run init ops = some s
+
+/-! ### Specification vocabulary -/
+
+/-- A path of one or more `edges` steps (`a` is transitively blocked on `b`). -/
+inductive Path (e : Nat → Option Nat) : Nat → Nat → Prop
+  | single {a b : Nat} : e a = some b → Path e a b
+  | cons {a b c : Nat} : e a = some b → Path e b c → Path e a c
+
+/-- The owner-key component of `transferred` as a functional graph on keys. -/
+def tnext (tr : Nat → Option (Nat × Nat)) : Nat → Option Nat := fun k => (tr k).map (·.2)
+
+/-- A path of one or more steps along `transferred` (key `a`'s lock is transitively owned by key `b`). -/
+def TPath (tr : Nat → Option (Nat × Nat)) (a b : Nat) : Prop := Path (tnext tr) a b
+
+/-- W4: `transferred` is a forest (no key transitively owns itself) and `transferred_dependents` is
+    exactly its inverse, as duplicate-free lists. -/
+structure Forest (s : State) : Prop where
+  fwd : ∀ k t o, s.transferred k = some (t, o) → k ∈ tdepsL s o
+  bwd : ∀ k o, k ∈ tdepsL s o → ∃ t, s.transferred k = some (t, o)
+  nodup : ∀ o, (tdepsL s o).Nodup
+  acyclic : ∀ k, ¬ TPath s.transferred k k
+
+/-- CLIENT precondition of `transfer k → newOwner` that the Rust code does NOT assert (the engine
+    guarantees it by its stack discipline: a query only transfers its lock to a cycle head that is
+    still active above it): the new owner is a different key and, when `k` has no `transferred` entry
+    yet (the `Entry::Vacant` arm, which has no re-pointing loop), the new owner's lock is not already
+    transitively owned by `k`.  Decidable; the driver evaluates it on every replayed `transfer_lock`. -/
+def transferClientOk (s : State) (k newOwner : Nat) : Bool :=
+  newOwner != k &&
+    ((s.transferred k).isSome ||
+      dependsOnLoop (tnext s.transferred) k (s.bound + 1) newOwner == some false)
+
+/-- The extra client precondition of a step (only `transfer` has one). -/
+def clientOk (s : State) : Op → Bool
+  | .transfer t k n => transferClientOk (touch (touch (touch s t) k) n) k n
+  | _ => true
+
+/-- Runs in which every `transfer` also satisfies the client precondition `transferClientOk`. -/
+def runC : State → List Op → Option State
+  | s, [] => some s
+  | s, op :: ops =>
+    if clientOk s op then
+      match step s op with
+      | none => none
+      | some s' => runC s' ops
+    else none
+
+def gclientOk (s : State) : GOp → Bool
+  | .transferLock q c n o => transferClientOk (touchOwner (touch (touch (touch s q) c) n) o) q n
+  | _ => true
+
+def grunC : State → List GOp → Option State
+  | s, [] => some s
+  | s, op :: ops =>
+    if gclientOk s op then
+      match gstep s op with
+      | none => none
+      | some s' => grunC s' ops
+    else none
+
+/-- Per-thread status: a thread is blocked (has an edge), ready (has an unconsumed wait result) or idle. -/
+inductive Status
+  | idle
+  | blocked
+  | ready
+  deriving DecidableEq, Repr
+
+def status (s : State) (t : Nat) : Status :=
+  if (s.edges t).isSome then .blocked else if (s.results t).isSome then .ready else .idle
+
+/-- The thread that executes a protocol step. -/
+def Op.actor : Op → Nat
+  | .claim t _ _ _ => t
+  | .peek t _ _ _ => t
+  | .release t _ _ => t
+  | .releaseSelf t _ => t
+  | .transfer t _ _ => t
+  | .wake t => t
+
+/-- Allowed per-thread status changes in one protocol step `s —op→ s'` (W5, "exactly once"):
+    a thread only becomes blocked by its own step, a blocked thread only leaves that state by
+    receiving a result, a result is never overwritten or dropped and is consumed only by the
+    thread's own `wake`. -/
+def Lifecycle (s s' : State) (op : Op) : Prop := ∀ t,
+  (status s' t = status s t ∧ s'.results t = s.results t) ∨
+  (status s t = .idle ∧ status s' t = .blocked ∧ op.actor = t ∧ op ≠ .wake t) ∨
+  (status s t = .blocked ∧ status s' t = .ready) ∨
+  (status s t = .ready ∧ status s' t = .idle ∧ op = .wake t)
 
 /-! ### Decidable invariant checks (evaluated over ids `< bound`) -/
 
